@@ -1,6 +1,7 @@
 From Coq Require Import ZArith Lia.
-From RsdnsModel Require Import Base GenConst GenCursor GenHeader GenSpec Cursor Header.
-From RsdnsModel.Proofs Require Import CursorSafe ListN Bits.
+From RsdnsModel Require Import Base GenConst GenCursor GenHeader GenSpec Cursor Names Labels Header Tracker RData Reader Writer.
+From RsdnsModel.Spec Require Import WireName.
+From RsdnsModel.Proofs Require Import CursorSafe ListN Bits WriterLayout RecordRT.
 From RsdnsModel.Properties Require Import C02.
 Open Scope N_scope.
 Check (C02_header_fields : forall msg, 12 <= lenN msg ->
@@ -13,4 +14,19 @@ Check (C02_flags : forall w, w < 65536 ->
 Check (C02_opt_fields : forall ttl, ttl < 2 ^ 32 ->
   opt_rcode_extension ttl = ttl / 2 ^ 24 /\ opt_version ttl = (ttl / 2 ^ 16) mod 256 /\ opt_flags ttl = ttl mod 65536).
 Check (C02_opt_do : forall f, opt_dnssec_ok f = N.testbit f 15).
-Print Assumptions C02_header_fields. Print Assumptions C02_flags. Print Assumptions C02_opt_fields. Print Assumptions C02_opt_do.
+Check (C02_a_record_roundtrip_plain : forall msg pre ls cl ttl addr post nk c p s,
+  msg = pre ++ wire_encode ls ++ fixed_wire T_A cl ttl 4 ++ be_bytes 4 addr ++ post ->
+  cwf msg c -> orig c = None -> pos c = lenN pre -> lim c = lenN msg ->
+  Forall (fun l => label_ok l = true) ls -> wire_len ls <= 255 ->
+  cl < 65536 -> ttl < 4294967296 -> addr < 4294967296 ->
+  exists c1 c2 mk m,
+    read_name msg nk c = Ok (join_labels ls, c1) /\
+    m_raw_marker msg p s c1 = (c2, Ok mk) /\
+    m_rtype mk = T_A /\ m_rclass mk = cl /\ m_ttl mk = ttl /\ m_rdlen mk = 4 /\ m_section mk = s /\
+    read_rdata msg T_A (m_rdlen mk) = Some m /\ snd (m c2) = Ok (RD_A addr) /\
+    pos (fst (m c2)) = lenN pre + wire_len ls + 10 + 4).
+Check (C02_fixed_part_roundtrip : forall msg pre post c p s ty cl ttl rdlen,
+  msg = pre ++ fixed_wire ty cl ttl rdlen ++ post -> cwf msg c -> pos c = lenN pre -> lenN pre + 10 <= lim c ->
+  ty < 65536 -> cl < 65536 -> ttl < 4294967296 -> rdlen < 65536 ->
+  m_raw_marker msg p s c = (c_set_pos c (lenN pre + 10), Ok (mkMarker p (lenN pre) ty cl ttl rdlen s))).
+Print Assumptions C02_header_fields. Print Assumptions C02_flags. Print Assumptions C02_opt_fields. Print Assumptions C02_opt_do. Print Assumptions C02_a_record_roundtrip_plain. Print Assumptions C02_fixed_part_roundtrip.
